@@ -66,7 +66,9 @@ def ob_req_answer(sid: int, fsel: int, n_stored: int, can: bool) -> str:
     return "ok" if eoses else "ok-refused"
 
 
-MSGS = (("REQ", "a", F1), ("REQ", "a", F2), ("REQ", "b", F1), ("CLOSE", "a"), ("CLOSE", "b"), ("REQ", "c", F1))
+MSGS = (("REQ", "a", F1), ("REQ", "a", F2), ("REQ", "b", F1), ("CLOSE", "a"), ("CLOSE", "b"), ("REQ", "c", F1),
+        ("REQ", "a", {"kinds": "x"}), ("REQ", "a"), ("REQ", 7, F1), ("CLOSE", 7))
+#        re-subscription of "a" with an invalid / no filter (answered by a bare EOSE), numeric sub id
 NM = 3 if THOROUGH else 2
 
 
@@ -75,11 +77,11 @@ NM = 3 if THOROUGH else 2
                    "storage.kv.LMDBStorage.add_event"],
             timeout=(280, 1500), params=range(2),
             bounds="connection 1 sends <=2 (thorough 3) messages by symbolic selector from {REQ a kinds[1], REQ a kinds[2], REQ b "
-                   "kinds[1], CLOSE a, CLOSE b, REQ c kinds[1]}, then (PARAM 0) stays connected / (PARAM 1) disconnects; then "
+                   "kinds[1], CLOSE a, CLOSE b, REQ c kinds[1], REQ a <invalid filter>, REQ a <no filter>, REQ 7, CLOSE 7}, then (PARAM 0) stays connected / (PARAM 1) disconnects; then "
                    "connection 2 submits a kind-1 event; subscription_limit symbolic in {1,2}; 1 stored event per query")
 def ob_sequence(ms: List[int], limit: int) -> str:
     """
-    pre: len(ms) <= NM and all(0 <= m < 6 for m in ms) and 1 <= limit <= 2
+    pre: len(ms) <= NM and all(0 <= m < 10 for m in ms) and 1 <= limit <= 2
     post: _.startswith("ok")
     """
     logging.disable(logging.CRITICAL)
@@ -135,16 +137,18 @@ def ob_sequence(ms: List[int], limit: int) -> str:
     open_subs = {}
     answered = []
     for m in msgs:
+        sid = str(m[1])
         if m[0] == "REQ":
-            if m[1] in open_subs:
-                del open_subs[m[1]]
+            if sid in open_subs:
+                del open_subs[sid]
             if len(open_subs) >= limit:
-                answered.append(("NOTICE", m[1]))
+                answered.append(("NOTICE", sid))
                 continue
-            open_subs[m[1]] = m[2]
-            answered.append(("EOSE", m[1]))
+            answered.append(("EOSE", sid))
+            if len(m) > 2 and m[2] in (F1, F2):
+                open_subs[sid] = m[2]       # a REQ without a valid filter is answered by EOSE and opens nothing
         else:
-            open_subs.pop(m[1], None)
+            open_subs.pop(sid, None)
     if PARAM == 1:
         open_subs = {}
     frames = conn1.frames()
